@@ -268,32 +268,32 @@ func init() {
 		"(*sync.Pool).Put": noop,
 
 		// ---- sync/atomic
-		"sync/atomic.LoadInt32":   atomicLoad,
-		"sync/atomic.LoadInt64":   atomicLoad,
-		"sync/atomic.LoadUint32":  atomicLoad,
-		"sync/atomic.LoadUint64":  atomicLoad,
-		"sync/atomic.LoadUintptr": atomicLoad,
-		"sync/atomic.LoadPointer": atomicLoad,
-		"sync/atomic.StoreInt32":  atomicStore,
-		"sync/atomic.StoreInt64":  atomicStore,
-		"sync/atomic.StoreUint32": atomicStore,
-		"sync/atomic.StoreUint64": atomicStore,
-		"sync/atomic.StoreUintptr": atomicStore,
-		"sync/atomic.StorePointer": atomicStore,
-		"sync/atomic.AddInt32":    atomicAdd,
-		"sync/atomic.AddInt64":    atomicAdd,
-		"sync/atomic.AddUint32":   atomicAdd,
-		"sync/atomic.AddUint64":   atomicAdd,
-		"sync/atomic.AddUintptr":  atomicAdd,
-		"sync/atomic.SwapInt32":   atomicSwap,
-		"sync/atomic.SwapInt64":   atomicSwap,
-		"sync/atomic.SwapUint32":  atomicSwap,
-		"sync/atomic.SwapUint64":  atomicSwap,
-		"sync/atomic.SwapPointer": atomicSwap,
-		"sync/atomic.CompareAndSwapInt32":  atomicCAS,
-		"sync/atomic.CompareAndSwapInt64":  atomicCAS,
-		"sync/atomic.CompareAndSwapUint32": atomicCAS,
-		"sync/atomic.CompareAndSwapUint64": atomicCAS,
+		"sync/atomic.LoadInt32":             atomicLoad,
+		"sync/atomic.LoadInt64":             atomicLoad,
+		"sync/atomic.LoadUint32":            atomicLoad,
+		"sync/atomic.LoadUint64":            atomicLoad,
+		"sync/atomic.LoadUintptr":           atomicLoad,
+		"sync/atomic.LoadPointer":           atomicLoad,
+		"sync/atomic.StoreInt32":            atomicStore,
+		"sync/atomic.StoreInt64":            atomicStore,
+		"sync/atomic.StoreUint32":           atomicStore,
+		"sync/atomic.StoreUint64":           atomicStore,
+		"sync/atomic.StoreUintptr":          atomicStore,
+		"sync/atomic.StorePointer":          atomicStore,
+		"sync/atomic.AddInt32":              atomicAdd,
+		"sync/atomic.AddInt64":              atomicAdd,
+		"sync/atomic.AddUint32":             atomicAdd,
+		"sync/atomic.AddUint64":             atomicAdd,
+		"sync/atomic.AddUintptr":            atomicAdd,
+		"sync/atomic.SwapInt32":             atomicSwap,
+		"sync/atomic.SwapInt64":             atomicSwap,
+		"sync/atomic.SwapUint32":            atomicSwap,
+		"sync/atomic.SwapUint64":            atomicSwap,
+		"sync/atomic.SwapPointer":           atomicSwap,
+		"sync/atomic.CompareAndSwapInt32":   atomicCAS,
+		"sync/atomic.CompareAndSwapInt64":   atomicCAS,
+		"sync/atomic.CompareAndSwapUint32":  atomicCAS,
+		"sync/atomic.CompareAndSwapUint64":  atomicCAS,
 		"sync/atomic.CompareAndSwapUintptr": atomicCAS,
 		"sync/atomic.CompareAndSwapPointer": atomicCAS,
 
@@ -302,12 +302,12 @@ func init() {
 		"runtime.Gosched":      noop,
 		"runtime.KeepAlive":    noop,
 		"runtime.SetFinalizer": noop,
-		"runtime.GOMAXPROCS": func(fr *frame, a []value) value { return fr.in.int64v(16) },
-		"runtime.NumCPU":     func(fr *frame, a []value) value { return fr.in.int64v(16) },
+		"runtime.GOMAXPROCS":   func(fr *frame, a []value) value { return fr.in.int64v(16) },
+		"runtime.NumCPU":       func(fr *frame, a []value) value { return fr.in.int64v(16) },
 		"internal/godebug.New": func(fr *frame, a []value) value {
 			return poison{"internal/godebug.New"}
 		},
-		"(*internal/godebug.Setting).Value": func(fr *frame, a []value) value { return str{} },
+		"(*internal/godebug.Setting).Value":         func(fr *frame, a []value) value { return str{} },
 		"(*internal/godebug.Setting).IncNonDefault": noop,
 
 		// ---- math
@@ -366,14 +366,14 @@ func init() {
 		"time.Now": func(fr *frame, a []value) value {
 			return fr.in.zero(fr.fn.Signature.Results().At(0).Type())
 		},
-		"time.Since": func(fr *frame, a []value) value { return fr.in.int64v(0) },
-		"time.Until": func(fr *frame, a []value) value { return fr.in.int64v(0) },
-		"os.Getenv":  func(fr *frame, a []value) value { return str{} },
+		"time.Since":   func(fr *frame, a []value) value { return fr.in.int64v(0) },
+		"time.Until":   func(fr *frame, a []value) value { return fr.in.int64v(0) },
+		"os.Getenv":    func(fr *frame, a []value) value { return str{} },
 		"os.LookupEnv": func(fr *frame, a []value) value { return tuple{str{}, fr.in.tb.False} },
 
 		// ---- os: a few harmless ones
-		"os.Getpid":          func(fr *frame, a []value) value { return fr.in.int64v(4242) },
-		"os.runtime_args":    func(fr *frame, a []value) value { return []value{} },
+		"os.Getpid":            func(fr *frame, a []value) value { return fr.in.int64v(4242) },
+		"os.runtime_args":      func(fr *frame, a []value) value { return []value{} },
 		"syscall.runtime_envs": func(fr *frame, a []value) value { return []value{} },
 	}
 	for k, v := range externals {
